@@ -68,7 +68,7 @@ Reach(S, nbrs, fails) == LET T == S \cup UNION {Range(nbrs[p]) : p \in S \ fails
 Crawl ==
   /\ Is("Crawl")
   /\ LET fails == Range(Ev.fails)
-         reach == Reach(Range(Ev.seeds), Ev.nbrs, fails)
+         reach == Reach(Range(Ev.seeds) \ Range(Ev.seednoaddr), Ev.nbrs, fails)   \* a seed without any address is not a starting point
      IN Step([s EXCEPT !.viol = @
           \cup Flag(~Ev.hang, "c_crawl_did_not_end")
           \cup Flag(\A p \in 1..Ev.n : Ev.connects[p] <= 1, "c_peer_queried_twice")
